@@ -243,6 +243,13 @@ async fn applied_oracle(out: &mut Out, layout: &str, rid: u64, rs: &RecoveredSta
                 }
             }
             crate::enc::MCrdt::H(h) => {
+                if h.iter().any(|(_, l)| l.v.is_none() && !l.tomb) {
+                    // a field register that is neither a value nor a tombstone: not something a replica
+                    // produces (boundary stream only; the string case above skips the same shape — the
+                    // re-materialisation of such crafted registers is C06's robustness note bad-delta)
+                    out.count("excluded:read-of-hash-with-crafted-empty-register");
+                    continue;
+                }
                 let reply = state.execute(Command::HGetAll(k.clone())).await;
                 let mut want_f: Vec<(Vec<u8>, Vec<u8>)> = h.iter().filter(|(_, l)| !l.tomb).filter_map(|(f, l)| l.v.clone().map(|v| (f.as_bytes().to_vec(), v))).collect();
                 want_f.sort();
